@@ -244,6 +244,9 @@ class Resolver:
         if isinstance(target, ast.Name):
             if self._impure(value):
                 return sym("def", ast.Constant(value=d))
+            if self._empty_container(value):
+                # an empty container that is read later has been filled by mutation in between: keep it symbolic
+                return sym("mut", ast.Constant(value=name), ast.Constant(value=d))
             return self._res(value, d, depth + 1, stack, {})
         if isinstance(target, (ast.Tuple, ast.List)):
             names = [t.id if isinstance(t, ast.Name) else None for t in target.elts]
@@ -253,6 +256,18 @@ class Resolver:
                     return self._res(value.elts[i], d, depth + 1, stack, {})
                 return sym("unpack", self._res(value, d, depth + 1, stack, {}), ast.Constant(value=i))
         return sym("def", ast.Constant(value=d))
+
+    @staticmethod
+    def _empty_container(value: ast.AST) -> bool:
+        if isinstance(value, (ast.List, ast.Set)) and not value.elts:
+            return True
+        if isinstance(value, ast.Dict) and not value.keys:
+            return True
+        if isinstance(value, ast.Call) and not value.args and not value.keywords and isinstance(value.func, ast.Name) and value.func.id in ("list", "dict", "set"):
+            return True
+        if isinstance(value, ast.Call) and (getattr(value.func, "attr", None) == "defaultdict" or getattr(value.func, "id", None) == "defaultdict"):
+            return True
+        return False
 
     @staticmethod
     def _impure(value: ast.AST) -> bool:
